@@ -189,7 +189,13 @@ def equiv_worker(job, ra, rb, fp_prefix, replay_kind, witnesses_fn=None, cells_f
         exb = H.explore_witnesses(run_b, [H.Witness(dict(nm0, **names))], A)
         same = exb.paths[0].exc is not None and type(exb.paths[0].exc) is type(p0.exc)
         errs = [] if same and expected_exc(p0.exc) else ["A raised %r, B %r" % (p0.exc, exb.paths[0].exc)]
-        return finish_worker(job, ex0, [], errors=errs, note=repr(p0.exc))
+        viol0 = []
+        if not same:
+            # the two descriptions do not even fail alike: a candidate for the replay on the real code
+            viol0.append({"fingerprint": fp_prefix + "/outcome", "detail": {"job": job["name"], "A": repr(p0.exc), "B": repr(exb.paths[0].exc)},
+                          "replay": dict({"kind": replay_kind, "spec": ra.spec, "specB": rb.spec, "values": {},
+                                          "numba": job.get("numba"), "pfmode": job.get("pfmode")}, **(replay_extra or {}))})
+        return finish_worker(job, ex0, viol0, errors=errs, note=repr(p0.exc))
     H.CTX.fixed = H.discover_fixed(p0.systems)
     for (kind, _nm), (_init, symname) in p0.havoc.items():
         if kind == "p":
